@@ -15,6 +15,8 @@ EXTENDS Engine, Json, SequencesExt
 CONSTANTS Variant,    \* "ref" | "built"
           Loadables,  \* set of [n |-> name, def |-> definition]
           OpKinds,    \* subset of {"Load","Render","Get","Validate","Remove","Clear","SetBasePath"}
+          ArgNames,   \* names offered as argument of Render / Get / Validate / Remove
+          Entries,    \* entry points offered for Render: subset of {"doc", "tpl"}
           MaxLoads,   \* bound on the number of load calls (MC only)
           Depth       \* behaviour length for generation
 
@@ -33,6 +35,8 @@ PoolTiny == { L("base", D("str", "R",  "",     B12,    FALSE)),
               L("A",    D("str", "CA", "base", {"b1"}, FALSE)),
               L("B",    D("str", "CB", "base", {"b1"}, FALSE)) }
 
+PoolCore == PoolTiny \cup { L("G", D("str", "GA", "A", {"b2"}, FALSE)) }
+
 PoolQuick == PoolTiny \cup
             { L("base", D("doc", "RD", "",     {"b1"}, TRUE)),
               L("A",    D("doc", "DA", "base", B12,    FALSE)),
@@ -47,19 +51,16 @@ PoolThorough == PoolQuick \cup
               L("G",    D("str", "GB", "A",    {"b1"}, FALSE)),
               L("G",    D("doc", "DG", "B",    B12,    FALSE)) }
 
-NamePool == {"base", "A", "B", "G"}
-
 Data1 == [v |-> "val1", items |-> <<"n1", "n2">>, c |-> TRUE]
 Data2 == [v |-> "val2", items |-> <<>>, c |-> FALSE]
 Datas == {Data1, Data2}
-ProbeData == Data1
 
 \* ---- operations offered -------------------------------------------------------
 Ops ==
      (IF "Load" \in OpKinds THEN {[op |-> "Load", n |-> l.n, def |-> l.def] : l \in Loadables} ELSE {})
   \cup (IF "Render" \in OpKinds
-        THEN {[op |-> "Render", n |-> n, e |-> e, data |-> Data2] : n \in NamePool, e \in {"doc", "tpl"}} ELSE {})
-  \cup {[op |-> k, n |-> n] : k \in OpKinds \cap {"Get", "Validate", "Remove"}, n \in NamePool}
+        THEN {[op |-> "Render", n |-> n, e |-> e, data |-> Data2] : n \in ArgNames, e \in Entries} ELSE {})
+  \cup {[op |-> k, n |-> n] : k \in OpKinds \cap {"Get", "Validate", "Remove"}, n \in ArgNames}
   \cup {[op |-> k] : k \in OpKinds \cap {"Clear", "SetBasePath"}}
 
 ShowsOf(s, h) == IF Variant = "ref" THEN Shows(s, NamePool, ProbeData) ELSE ShowsB(h, NamePool, ProbeData)
@@ -79,11 +80,6 @@ NextMC == \E op \in Ops :
             /\ hist' = hist
 SpecMC == Init /\ [][NextMC]_vars
 
-\* the generated behaviour carries the concrete source lines of every definition loaded
-Conc(op) == IF op.op = "Load"
-            THEN [op |-> "Load", n |-> op.n, def |-> op.def,
-                  src |-> [i \in 1..Len(Src(op.def)) |-> Src(op.def)[i].raw]]
-            ELSE op
 NextGen == /\ Len(hist) < Depth + 1
            /\ \E op \in Ops : /\ st' = Apply(st, op)
                                /\ hist' = Append(hist, Conc(op))
